@@ -12,6 +12,8 @@ import (
 	"sort"
 	"strings"
 
+	"github.com/PapaCharlie/go-restli/v2/fnv1a"
+
 	"verifh/bridge"
 	codec "verifh/codec"
 	"verifh/corpus"
@@ -100,6 +102,91 @@ func Child() bool {
 	return false
 }
 
+// collidingKeys holds pairs of distinct strings whose 32-bit FNV-1a hashes are equal, from the zero start value and from
+// the standard offset basis (found by search through the library's own hash, as an adversary would).
+var collidingKeys = func() [][2]string {
+	out := [][2]string{{"a", "\x00a"}} // a leading NUL does not move a zero accumulator
+	for _, zero := range []bool{true, false} {
+		first := map[uint32]string{}
+		found := 0
+		for i := 0; i < 600000 && found < 4; i++ {
+			k := "k" + fmt.Sprintf("%x", uint64(i+1)*0x9E3779B97F4A7C15)
+			h := fnv1a.NewHash()
+			if zero {
+				h = fnv1a.ZeroHash()
+			}
+			h.AddString(k)
+			key := uint32(h.MapKey())
+			if prev, ok := first[key]; ok && prev != k {
+				out = append(out, [2]string{prev, k})
+				found++
+			} else {
+				first[key] = k
+			}
+		}
+	}
+	return out
+}()
+
+// injectCollidingKeys rewrites maps of v that hold at least two different values so that two of them sit under keys
+// with colliding hashes; it reports whether anything was rewritten.
+func injectCollidingKeys(v *model.Value, rng *rand.Rand) bool {
+	if v == nil {
+		return false
+	}
+	done := false
+	switch v.Kind {
+	case model.KMap:
+		keys := make([]string, 0, len(v.Entries))
+		for k := range v.Entries {
+			keys = append(keys, k)
+		}
+		sort.Strings(keys)
+		for i := 0; i < len(keys) && !done; i++ {
+			for j := i + 1; j < len(keys) && !done; j++ {
+				if !model.Equal(v.Entries[keys[i]], v.Entries[keys[j]]) {
+					pair := collidingKeys[rng.Intn(len(collidingKeys))]
+					if _, taken := v.Entries[pair[0]]; taken {
+						continue
+					}
+					if _, taken := v.Entries[pair[1]]; taken {
+						continue
+					}
+					v.Entries[pair[0]], v.Entries[pair[1]] = v.Entries[keys[i]], v.Entries[keys[j]]
+					delete(v.Entries, keys[i])
+					delete(v.Entries, keys[j])
+					done = true
+				}
+			}
+		}
+		for _, k := range keys {
+			if e, ok := v.Entries[k]; ok && injectCollidingKeys(e, rng) {
+				done = true
+			}
+		}
+	case model.KArray:
+		for _, e := range v.Elems {
+			if injectCollidingKeys(e, rng) {
+				done = true
+			}
+		}
+	case model.KRecord:
+		names := make([]string, 0, len(v.Fields))
+		for k := range v.Fields {
+			names = append(names, k)
+		}
+		sort.Strings(names)
+		for _, k := range names {
+			if injectCollidingKeys(v.Fields[k], rng) {
+				done = true
+			}
+		}
+	case model.KUnion:
+		done = injectCollidingKeys(v.Member, rng)
+	}
+	return done
+}
+
 func Run(run *ev.Run) {
 	run.Rule("for every generated type and base value a: pool = {a, rebuilt copy (fresh maps), nil-for-empty copy, JSON round-tripped copy, every single-position mutation of a}; checks on every ordered pair of the pool: symmetry, Equals=>hash equality, " +
 		"copies Equal to a with equal hashes, mutants that change the abstract value not Equal to a, +0/-0 mutants Equal with equal hashes, reflexivity (NaN-free), transitivity on sampled triples; complex keys additionally with ComplexKeyEquals / ComputeComplexKeyHash; " +
@@ -123,6 +210,11 @@ func Run(run *ev.Run) {
 			for i := 0; i < perType; i++ {
 				a := g.Value(t, 0)
 				checkPool(run, set, full, t, a, isCK, rng)
+				// the same value with map keys whose 32-bit hashes collide (keys are unique, their hashes are not)
+				if c := model.Clone(a); i%4 == 0 && injectCollidingKeys(c, rng) {
+					run.Count("values_with_colliding_map_keys", 1)
+					checkPool(run, set, full, t, c, isCK, rng)
+				}
 			}
 		}
 	}
@@ -145,6 +237,7 @@ func Run(run *ev.Run) {
 		}
 	}
 	run.Require("pairs_checked", 5000)
+	run.Require("values_with_colliding_map_keys", 20)
 	run.Require("cross_process_digests", 2)
 }
 
@@ -207,9 +300,12 @@ func checkPool(run *ev.Run, set *bridge.Set, full string, t corpus.TypeExpr, a *
 			return
 		}
 		hashes[i] = h
-		// purity within the process
-		if h2, _ := callHash(m.go_, "ComputeHash"); h2 != h {
-			run.Violation(GENERATION+"/hash/not-repeatable", desc(m, m))
+		// purity within the process (map iteration order differs from call to call)
+		for rep := 0; rep < 6; rep++ {
+			if h2, _ := callHash(m.go_, "ComputeHash"); h2 != h {
+				run.Violation(GENERATION+"/hash/not-repeatable", desc(m, m))
+				break
+			}
 		}
 	}
 	eq := make([][]bool, len(pool))
